@@ -26,7 +26,8 @@ EXTRA = {"c01-b-sob-reach": ["C04"], "c02-a-repeat-step-once": ["C16"], "c02-b-l
          "c04-e-shared-stub-state": ["C01"], "c19-f-fileno-late": ["C11"], "c03-f-extern-all-forgotten": ["C11"], "c08-e-repeat-end-reraise": ["C16"], "c12-e-length-no-try": ["C16"],
          # fourth and fifth wave
          "c04-g-pc-first-operand": ["C01"], "c10-g-paren-memoised": ["C16", "C05"], "c08-g-rad50-code-bound": ["C15"], "c05-g-self-add-coefficient": ["C03", "C09"],
-         "c02-g-concat-length-bytearray": ["C16"], "c07-g-inline-imm-bound": ["C01"], "c14-g-charlit-signed-byte": ["C05"]}
+         "c02-g-concat-length-bytearray": ["C16"], "c07-g-inline-imm-bound": ["C01"], "c14-g-charlit-signed-byte": ["C05"],
+         "c14-i-angle-chunk-through-codec": ["C06"], "c16-h-once-table-class-attr": ["C18"], "c02-h-rad50-pad-per-chunk": ["C15"]}
 
 
 def sh(cmd, **kw):
